@@ -178,23 +178,44 @@ def run(rep: common.Report, tier: str, seed: int, replay=None) -> int:
             rep.violation(f"H <-> B round trip raised {type(e).__name__}: {e}"[:200], {"value": v, "from": u1, "via": u2})
         rep.count(1)
     rep.nontrivial("convert")
-    # ---------- loop potential vs quadrature: supporting evidence only ----------
+    # ---------- loop potential vs quadrature ----------
+    # relative to the largest |A| over a ring of reference points at the loop's own scale, so that points on the loop axis
+    # (where A vanishes) and far from a small loop are judged in absolute terms
     worst = 0.0
+    loop_cases = []
     for _ in range(6):
         a = rng.uniform(0.3, 2.0)
         ctr = (rng.uniform(-1, 1), rng.uniform(-1, 1), rng.uniform(-0.5, 0.5))
         P = np.array([[rng.uniform(-3, 3), rng.uniform(-3, 3), rng.uniform(0.6, 2.0)] for _ in range(5)])
+        loop_cases.append((a, ctr, P))
+    for a in (1.0, 0.1, 0.02):
+        ctr = (rng.uniform(-1, 1), rng.uniform(-1, 1), rng.uniform(-0.5, 0.5))
+        rel = np.array([[0.0, 0.0, 1.0], [0.0, 0.0, -2.0], [0.0, 0.0, 0.0], [1e-9, 0.0, 1.0], [1e-5, -1e-5, 0.7], [1e-3, 2e-3, -1.0],
+                        [0.02, 0.01, 1.0], [0.3, 0.1, 5.0], [0.05, 0.0, 0.3], [-0.4, 0.2, 8.0], [a, 0.0, 0.5 * a]])
+        loop_cases.append((a, ctr, rel + np.array(ctr)[None, :]))
+    for a, ctr, P in loop_cases:
         A = current_loop_vector_potential(P, loop_center=ctr, loop_radius=a, current=1.0).to("T * m").magnitude
         ph = np.linspace(0, 2 * np.pi, 20001)[:-1]
         lp = np.stack([ctr[0] + a * np.cos(ph), ctr[1] + a * np.sin(ph), np.full_like(ph, ctr[2])], axis=1) * 1e-6
         dl = np.stack([-a * np.sin(ph), a * np.cos(ph), np.zeros_like(ph)], axis=1) * 1e-6 * (2 * np.pi / len(ph))
-        for p, Ai in zip(P * 1e-6, A):
+
+        def quad_at(p):
             r = np.linalg.norm(p[None] - lp, axis=1)
-            quad = mu_0 * 1e-6 / (4 * np.pi) * np.sum(dl / r[:, None], axis=0)
-            worst = max(worst, float(np.max(np.abs(Ai - quad)) / (np.max(np.abs(quad)) + 1e-300)))
+            return mu_0 * 1e-6 / (4 * np.pi) * np.sum(dl / r[:, None], axis=0)
+        for p_um, Ai in zip(P, A):
+            p = p_um * 1e-6
+            quad = quad_at(p)
+            # scale: the potential at the same height, half a loop radius off the axis
+            ref = np.linalg.norm(quad_at(np.array([ctr[0] + 0.5 * a, ctr[1], p_um[2]]) * 1e-6)) + 1e-300
+            scale_ = max(float(np.max(np.abs(quad))), 1e-3 * ref)
+            err = float(np.max(np.abs(Ai - quad)) / scale_) if np.all(np.isfinite(Ai)) else float("inf")
+            if err > 1e-6 and err > worst:
+                bad_loop = {"radius": a, "center": list(ctr), "point": [float(v) for v in p_um], "closed_form": [float(v) for v in Ai],
+                            "quadrature": [float(v) for v in quad]}
+            worst = max(worst, err)
     rep.coverage["loop_closed_form_vs_quadrature_max_rel_diff"] = worst
     if worst > 1e-6:
-        rep.violation(f"closed-form loop vector potential differs from quadrature by {worst:.2e} (relative)", {})
+        rep.violation(f"closed-form loop vector potential differs from quadrature by {worst:.2e} (relative)", bad_loop)
     rep.coverage.update({"kernel_cases": ncase, "correspondence_disagreements": ndis})
     rep.assumptions += ["numba fastmath kernels compared with tolerance 1e-9; r^(-3/2) modelled as 1/(r2*sqrt r2)",
                         "pint unit factors enter as numbers (conversion to SI done by the harness with the same registry)",
